@@ -240,6 +240,25 @@ theorem getPermissions_spec {dec : Pres → Option Tok} {st : St} (hi : Inv dec 
 
 /-! ### the router path -/
 
+/-- the write-back with its second look at the revocation list: from a state whose TokenCache
+already holds the (valid) token, the second lookup repeats the table's answer -/
+theorem writeBack_spec {dec : Pres → Option Tok} {st2 : St} (p : Pres) (tok : Tok)
+    (hi : Inv dec { st2 with tc := st2.tc.add st2.maxSize st2.now p tok })
+    (hnot : tok.id ∉ ({ st2 with tc := st2.tc.add st2.maxSize st2.now p tok } : St).store) :
+    (writeBack st2 p tok).1 = .accepted ∧ Inv dec (writeBack st2 p tok).2 ∧
+    Frame st2 (writeBack st2 p tok).2 := by
+  unfold writeBack
+  obtain ⟨hb, hinv, hfr, _⟩ := isBlacklisted_spec hi tok.id
+  cases hib : isBlacklisted { st2 with tc := st2.tc.add st2.maxSize st2.now p tok } tok.id with
+  | mk b st4 =>
+    rw [hib] at hb hinv hfr
+    simp only at hb hinv hfr
+    cases b with
+    | true => exact absurd (by simpa using hb.symm) hnot
+    | false =>
+      obtain ⟨hinv5, hfr5⟩ := getPermissions_spec hinv tok.user
+      exact ⟨rfl, hinv5, (Frame.of_tc _ _).trans (hfr.trans hfr5)⟩
+
 theorem routerAuth_spec {dec : Pres → Option Tok} {st : St} (hi : Inv dec st) (p : Pres) :
     ((routerAuth dec st p).1 = .accepted ↔ ∃ t, Valid dec st p t ∧ t.user ≠ 0) ∧
     Inv dec (routerAuth dec st p).2 ∧ Frame st (routerAuth dec st p).2 := by
@@ -253,24 +272,18 @@ theorem routerAuth_spec {dec : Pres → Option Tok} {st : St} (hi : Inv dec st) 
     have miss : ∀ st1 : St, Inv dec st1 → Frame st st1 →
         (((match unwrap dec st1 p with
             | (.accepted, some tok, st2) =>
-              if tok.user ≠ 0 then
-                (Verdict.accepted,
-                  getPermissions { st2 with tc := st2.tc.add st2.maxSize st2.now p tok } tok.user)
+              if tok.user ≠ 0 then writeBack st2 p tok
               else (Verdict.denied, st2)
             | (_, _, st2) => (Verdict.denied, st2)) : Verdict × St).1 = .accepted ↔
             ∃ t, Valid dec st p t ∧ t.user ≠ 0) ∧
         Inv dec ((match unwrap dec st1 p with
             | (.accepted, some tok, st2) =>
-              if tok.user ≠ 0 then
-                (Verdict.accepted,
-                  getPermissions { st2 with tc := st2.tc.add st2.maxSize st2.now p tok } tok.user)
+              if tok.user ≠ 0 then writeBack st2 p tok
               else (Verdict.denied, st2)
             | (_, _, st2) => (Verdict.denied, st2)) : Verdict × St).2 ∧
         Frame st ((match unwrap dec st1 p with
             | (.accepted, some tok, st2) =>
-              if tok.user ≠ 0 then
-                (Verdict.accepted,
-                  getPermissions { st2 with tc := st2.tc.add st2.maxSize st2.now p tok } tok.user)
+              if tok.user ≠ 0 then writeBack st2 p tok
               else (Verdict.denied, st2)
             | (_, _, st2) => (Verdict.denied, st2)) : Verdict × St).2 := by
       intro st1 hi1 hfr1
@@ -313,9 +326,13 @@ theorem routerAuth_spec {dec : Pres → Option Tok} {st : St} (hi : Inv dec st) 
                   refine Cache.sat_add hinv2.tc _ _ _ _ ⟨hv.1, ?_, hu0⟩
                   show tok.id ∉ st2.store
                   rw [hfr2.store]; exact hv.2.2
-                obtain ⟨hinv4, hfr4⟩ := getPermissions_spec hinv3 tok.user
-                refine ⟨⟨fun _ => ⟨tok, hv0, hu0⟩, fun _ => by trivial⟩, hinv4, ?_⟩
-                exact hfr02.trans (Frame.trans (Frame.of_tc _ _) hfr4)
+                have hnot3 : tok.id ∉
+                    ({ st2 with tc := st2.tc.add st2.maxSize st2.now p tok } : St).store := by
+                  show tok.id ∉ st2.store
+                  rw [hfr2.store]; exact hv.2.2
+                obtain ⟨hacc4, hinv4, hfr4⟩ := writeBack_spec p tok hinv3 hnot3
+                refine ⟨⟨fun _ => ⟨tok, hv0, hu0⟩, fun _ => hacc4⟩, hinv4, ?_⟩
+                exact hfr02.trans hfr4
           | invalid =>
             have := denied_case (by rintro ⟨t, h, _⟩; simp at h)
             exact ⟨⟨fun h => by simp at h, fun h => absurd h this⟩, hinv2, hfr02⟩
